@@ -16,6 +16,8 @@ PROP = {'drive': ['Otl'], 'modules': ['SfntV.Props.C08'],
                        'C08_info_roundtrip', 'C08_info_roundtrip_nonvacuous', 'C08_gdef_roundtrip_value', 'C08_gdef_roundtrip_eq',
                        'C08_reader_prefix_only_gsub', 'C08_reader_prefix_only_gpos', 'C08_codec_law',
                        'C08_gsub_info_roundtrip', 'C08_gpos_info_roundtrip', 'C08_gsub_info_roundtrip_nonvacuous',
+                       'C08_readlookuplist_accepts', 'C08_info_roundtrip_go', 'C08_gsub_info_roundtrip_go',
+                       'C08_gpos_info_roundtrip_go',
                        'C08_reader_cov_in_range_coverage', 'C08_reader_cov_in_range_gsub1_2',
                        'C08_reader_cov_in_range_gsub2_1_3_1', 'C08_reader_cov_in_range_gsub4_1',
                        'C08_reader_cov_in_range_gsub8_1', 'C08_reader_cov_in_range_gpos1_2',
@@ -58,21 +60,21 @@ PROP = {'drive': ['Otl'], 'modules': ['SfntV.Props.C08'],
              'readLookupList (the Go reader of lookup lists, with its 6000-entry budget and its two-pass '
              'extension resolution) is modelled, tied by value-exact correspondence on encoder output, hand-built '
              'extension lookups and mutated bytes (stream otl.ll.read), and proved sound against the specification '
-             'reader on every accepted byte string (C08_readlookuplist_sound; subtables as positions). Not proved: '
-             'that it accepts every encoder output (the 6000-entry budget can refuse a list the encoder wrote; the '
-             'lookup-list theorem recovers the structure with the specification reader LL.specRead)',
-             'Info as one value (adapter for C01): C08_gsub_info_roundtrip / C08_gpos_info_roundtrip over arbitrary mixes '
-             'of subtables (sum-type codecs gsubCodec / gposCodec behind the real dispatchers; the codec law follows '
-             'from the exact-bytes round trips and from prefix-only lemmas for every reader, Proofs/OtlMono.lean). '
-             'Open: (a) Info.read reads the lookup list with the specification reader LL.specRead; the Go reader is '
-             'proved to agree wherever it accepts (C08_readlookuplist_sound), but that it accepts every encoder '
-             'output (needs: lookups + subtables <= 6000, a converse of readLL_spec and its generalisation from '
-             'positions to decoded subtables) is only tied by the streams otl.ll.read / otl.gtab.read; (b) class-based '
-             'subtables (contexts format 2, GPOS 2.2) need their class tables in the reader normal form (hypothesis '
-             'PartGood of the ok-lemmas: that a decoded class list re-encodes and decodes to itself is not proved); '
-             '(c) no kernel-checked example with an extension lookup (needs > 64 KiB of subtables); the extension '
-             'path is covered by the theorem and exercised by the streams; (d) C08_gdef_roundtrip_value stays '
-             'relational (class tables come back as functions; no canonical entry list is proved)',
+             'reader on every accepted byte string (C08_readlookuplist_sound; subtables as positions), and to accept '
+             'whatever the specification reader finds within its budget of 6000 lookups + subtables '
+             '(C08_readlookuplist_accepts); beyond the budget it refuses lists the encoder writes (loud)',
+             'Info as one value (adapter for C01): C08_gsub_info_roundtrip(_go) / C08_gpos_info_roundtrip(_go) over '
+             'arbitrary mixes of subtables (sum-type codecs gsubCodec / gposCodec behind the real dispatchers). '
+             'Info.readGo is the model of gtab.Read itself (Go lookup-list reader with its 6000-entry budget, the '
+             'codec as subtable reader): C08_readlookuplist_accepts is the converse of C08_readlookuplist_sound, and on '
+             'encoder output within the budget (BudgetOk) Info.readGo = Info.read = nf. Class tables: any table with '
+             '16-bit glyph ids and classes; the normal form ClassDef.nfTab is what Read makes of what Append writes '
+             '(a decoded class LIST is not a fixed point of re-encoding: the reader of format 2 stores later ranges '
+             'first, format 1 ascending, and re-encoding may change the format - as Go maps they are equal). GDEF: '
+             'C08_gdef_roundtrip_eq. Remaining hypothesis of the ChainedSeqContext2 membership (hal): re-encoding '
+             'the decoded class tables needs no more room than the tables written. No kernel-checked example with '
+             'an extension lookup (needs > 64 KiB of subtables); the extension path is covered by the theorems and '
+             'exercised by the streams',
              'reader post-condition (the shape C07 assumes): C08_reader_cov_in_range_*: on every accepted byte string '
              'every coverage index is an index of the array delivered next to it (GSUB 1.2/2.1/3.1/4.1/8.1, GPOS '
              '1.2/3.1/4.1/6.1 mark+base, SeqContext1, ChainedSeqContext1); evaluated on the real readers by D '
